@@ -5,6 +5,7 @@ package cont
 
 import (
 	"errors"
+	"reflect"
 
 	"github.com/junioryono/godi/v4"
 	"github.com/junioryono/godi/v4/zzverif/kit"
@@ -29,6 +30,14 @@ func profile(name string) (lifes, forms, variants []int) {
 		return all, []int{kit.IdPlain, kit.IdVoid, kit.IdVoidErr, kit.IdNamed}, []int{0, 1, 3, 4, 11}
 	}
 	panic("bad profile")
+}
+
+func isNilPointer(v any) bool {
+	if v == nil {
+		return false
+	}
+	rv := reflect.ValueOf(v)
+	return rv.Kind() == reflect.Ptr && rv.IsNil()
 }
 
 func addErrs(errs [kit.NS]error, n int) bool {
@@ -132,6 +141,11 @@ func step(m *kit.Model, nodes []node, k int, id kit.Ident, ctx string) {
 		return
 	}
 	for j := range want {
+		if f := m.W.Regs[want[j].Reg].Form; want[j].Aux && kit.AuxNilMask&(1<<want[j].Reg) != 0 && (f == kit.IdMulti || f == kit.IdMultiNamed || f == kit.IdMultiGroup) {
+			// the constructor returned a nil pointer for this output: that is the value
+			vrt.Assert(isNilPointer(vals[j]), "C04.nil_output", ctx, "the second output of registration", want[j].Reg, "is a nil pointer but resolution returned something else")
+			continue
+		}
 		m.Bind(want[j], vals[j], ctx)
 	}
 	// a keyed request with the empty key: either no such registration, or - if
@@ -180,6 +194,9 @@ func H_Hist() {
 		vrt.Assume(!as2) // the alias rule is C01's; other properties leave it out
 	}
 
+	if vrt.Param("auxnil", 0) == 1 {
+		kit.AuxNilMask = vrt.Pick("auxnil", 0, 1<<n-1)
+	}
 	c := godi.NewCollection()
 	errs := w.Register(c)
 	vrt.Assume(!addErrs(errs, n))
